@@ -256,6 +256,14 @@ class VFile:
     def __exit__(self, *a):
         self.close()
 
+    def __del__(self):
+        # CPython closes (and thereby flushes) a file object when its last reference goes away
+        try:
+            if not self.closed:
+                self.close()
+        except Exception:
+            pass
+
 
 class World:
     """One interpreted universe: virtual sys.modules, environment, files, output."""
@@ -377,6 +385,8 @@ class World:
 
     def read_lines(self, name):
         """Text lines of a virtual file as the reader sees them (flushed content only)."""
+        import gc
+        gc.collect()      # file objects that became unreachable are closed (CPython does so by reference counting)
         out = []
         cur = ""
         for rec in self.fs.get(name, []):
